@@ -18,6 +18,9 @@ mod kit;
 
 use kit::*;
 
+#[global_allocator]
+static GLOBAL: kit::QuarantineAlloc = kit::QuarantineAlloc;
+
 fn harnesses() -> Vec<Box<dyn Harness>> {
     vec![
         Box::new(h_c03::QueueHarness { kind: "iq" }),
@@ -71,6 +74,14 @@ fn main() {
     let args: Vec<String> = std::env::args().collect();
     if args.len() < 2 {
         eprintln!("usage: vsim check <PROPERTY> ...");
+        std::process::exit(2);
+    }
+    // Heap garbage must not leak into runs (reads of never-written memory, "did this plain write change
+    // anything" in write splitting): let glibc fill every malloc'ed and freed block with a fixed pattern.
+    if std::env::var("MALLOC_PERTURB_").is_err() {
+        use std::os::unix::process::CommandExt;
+        let e = std::process::Command::new(std::env::current_exe().unwrap()).args(&args[1..]).env("MALLOC_PERTURB_", "165").exec();
+        eprintln!("re-exec failed: {e}");
         std::process::exit(2);
     }
     silence_panics();
